@@ -518,9 +518,9 @@ Proof.
   { intros y Hy. eapply FreshKids_Sub; [apply HI4 | apply N.le_refl | eapply dfs_ids_Sub; eauto]. }
   clear E.
   apply wbind_inv in H as [(u6 & w6 & E & H) | (e & E & ->)].
-  2: { destruct (dup_membership_spec _ _ _ _ _ _ _ _ _ _ _ _ Hcids HI4 HR4 E) as (A & B & _).
+  2: { destruct (dup_membership_spec _ _ _ _ _ _ _ _ _ _ _ _ _ Hcids HI4 HR4 E) as (A & B & _).
        apply EXIT; [exact A | eapply DSame_trans; eauto | intros c0 [=]]. }
-  destruct (dup_membership_spec _ _ _ _ _ _ _ _ _ _ _ _ Hcids HI4 HR4 E) as (HI6 & HS6 & HR6). clear E.
+  destruct (dup_membership_spec _ _ _ _ _ _ _ _ _ _ _ _ _ Hcids HI4 HR4 E) as (HI6 & HS6 & HR6). clear E.
   apply wret_inv in H as (-> & ->).
   assert (HS06 : DSame n0 nm nf w w6) by (eapply DSame_trans; eauto).
   destruct HI6 as (I1 & I2 & I3 & I4 & I5).
@@ -528,7 +528,33 @@ Proof.
   intros c0 [= <-]. split; [reflexivity|].
   destruct HR6 as (_ & _ & rc & xc & Hrc & Hpar & Hxc & Hrt & Hat & Hcm).
   exists x, rn, xc, rc. repeat split; auto; try apply I5.
-  intros y HS. eapply FreshKids_Sub; eauto. apply N.le_refl.
+  intros y HS. exact (FreshKids_Sub n0 _ n0 y I4 (N.le_refl _) HS).
+Qed.
+
+(* AutosarModel::duplicate: the original is untouched; on failure the model and file lists are exactly what they were *)
+Theorem duplicate_spec m w r w' :
+  Closed w ->
+  (forall x, nth_opt (w_models w) (N.to_nat m) = Some x -> exists rn, w_nodes w (m_root x) = Some rn) ->
+  m_duplicate T tab_el tab_en check_fn LATEST root_attrs m w = Val (r, w') ->
+  (forall i, i < w_next w -> w_nodes w' i = w_nodes w i) /\ w_next w <= w_next w' /\
+  firstn (List.length (w_files w)) (w_files w') = w_files w /\
+  firstn (List.length (w_models w)) (w_models w') = w_models w /\
+  match r with
+  | ER _ => w_files w' = w_files w /\ w_models w' = w_models w
+  | OK c => DupResult m w c w'
+  end.
+Proof.
+  intros Cw Hroots H. unfold m_duplicate in H.
+  destruct (m_duplicate_body T LATEST root_attrs m w) as [[[c|e] w1]|s|] eqn:E; try discriminate H.
+  - injection H as <- <-.
+    destruct (dup_body_spec m w _ _ Cw Hroots E) as ((S1 & S2 & S3) & Hn & _ & _ & HR).
+    rewrite !firstn_all in *. split; [exact S1|]. split; [exact Hn|]. split; [exact S2|]. split; [exact S3|].
+    apply HR. reflexivity.
+  - injection H as <- <-.
+    destruct (dup_body_spec m w _ _ Cw Hroots E) as ((S1 & S2 & S3) & Hn & _ & _ & _).
+    rewrite !firstn_all in *. unfold drop_models_files; cbn.
+    rewrite S2, S3, !firstn_all.
+    split; [exact S1|]. split; [exact Hn|]. auto.
 Qed.
 
 End DupTop.
